@@ -828,8 +828,11 @@ pub fn exec_source(priorities: &[u32], max_len: usize, source: &mut dyn FnMut(&[
 pub fn minimise(rec: &Record, class: &str, budget: usize, run: &dyn Fn(&Record) -> ExecOut) -> (Record, usize) {
     let mut best = rec.clone();
     let mut evals = 0usize;
+    // wall-clock cap per violation class: minimisation is a convenience, the verdict does not
+    // depend on it (long inputs in the debug profile cost a tenth of a second per candidate)
+    let deadline = std::time::Instant::now() + std::time::Duration::from_secs(25);
     let still = |cand: &Record, evals: &mut usize| -> Option<Violation> {
-        if *evals >= budget {
+        if *evals >= budget || std::time::Instant::now() > deadline {
             return None;
         }
         *evals += 1;
@@ -901,7 +904,7 @@ pub fn minimise(rec: &Record, class: &str, budget: usize, run: &dyn Fn(&Record) 
                 }
             }
         }
-        if (best.ops.len(), best.priorities.len()) == before || evals >= budget {
+        if (best.ops.len(), best.priorities.len()) == before || evals >= budget || std::time::Instant::now() > deadline {
             break;
         }
     }
